@@ -136,7 +136,8 @@ pub struct Sim {
     pub diverged: Option<String>,
     id_rng: Rng,
     clock_rng: Rng,
-    id_seq: HashMap<String, u64>,
+    id_seq: HashMap<String, (u64, u64)>,
+    activity: u64,
     next_id_seq: u64,
     tasks: BTreeMap<u64, TaskEntry>,
     ready: Arc<Mutex<Vec<u64>>>,
@@ -238,6 +239,7 @@ fn install_with(seed: u64, knobs: Knobs, decisions: Option<Vec<(u16, u32, u32)>>
         id_rng,
         clock_rng,
         id_seq: HashMap::new(),
+        activity: 0,
         next_id_seq: 0,
         tasks: BTreeMap::new(),
         ready: Arc::new(Mutex::new(Vec::new())),
@@ -479,7 +481,8 @@ pub fn gen_id(n: usize) -> String {
         s.next_id_seq += 1;
         s.stats.ids += 1;
         let q = s.next_id_seq;
-        s.id_seq.insert(id.clone(), q);
+        let act = s.activity;
+        s.id_seq.insert(id.clone(), (q, act));
         id
     }) {
         Some(id) => id,
@@ -496,7 +499,20 @@ pub fn gen_id(n: usize) -> String {
 
 /// generation sequence number of an id produced by `gen_id` in this run
 pub fn id_seq(id: &str) -> Option<u64> {
-    with(|s| s.id_seq.get(id).copied())
+    with(|s| s.id_seq.get(id).map(|x| x.0))
+}
+
+/// the activity (poll or harness call) during which the id was generated
+pub fn id_activity(id: &str) -> Option<u64> {
+    with(|s| s.id_seq.get(id).map(|x| x.1))
+}
+
+/// a new activity begins (every poll is one; the harness calls this before every client call)
+pub fn next_activity() -> u64 {
+    with(|s| {
+        s.activity += 1;
+        s.activity
+    })
 }
 
 // ---------------------------------------------------------------------------------------------
@@ -649,6 +665,7 @@ pub fn step() -> bool {
         let epoch = e.epoch;
         s.cur_epoch = epoch;
         s.stats.polls += 1;
+        s.activity += 1;
         s.seq += 1;
         s.sched_hash = fnv(s.sched_hash, label.as_bytes());
         s.sched_hash = fnv(s.sched_hash, &[k as u8]);
